@@ -258,6 +258,11 @@ def run_sim(spec, listeners=(), failpoints=None, device=None, seed_solution=None
             if pre_solve is not None:
                 pre_solve(solver)
             rr.solution = solver.solve()
+            if spec.get("solve_twice"):
+                # the same TDGLSolver object is run again (a legitimate use of the public class):
+                # the second run must be a proper run of the same problem
+                rr.first_solution = rr.solution
+                rr.solution = solver.solve()
         except BaseException as exc:  # noqa: BLE001 (KeyboardInterrupt included on purpose)
             if isinstance(exc, (SystemExit,)):
                 raise
